@@ -16,7 +16,7 @@ inductive LogicError where
 
 abbrev Res (α : Type) := Except LogicError α
 
-def Res.failed {α : Type} : Res α → Bool
+def failed {α : Type} : Res α → Bool
   | .error _ => true
   | .ok _ => false
 
